@@ -103,3 +103,86 @@ func TestVerifBoundedIODenylistSeesLiveCalls(t *testing.T) {
 	rec("", 0)
 	t.Logf("%d texts, %d with a live call", n, live)
 }
+
+// Second part (same universe plus `;`): wherever the reference lexer finds a live `;` that is followed by more live
+// text, ValidateSQLRequest must refuse the request (multi-statement), whatever quotes and comments surround it.
+func verifLiveSecondStatement(s string) bool {
+	i := 0
+	seenSemi := false
+	for i < len(s) {
+		switch {
+		case s[i] == '\'' || s[i] == '"':
+			q := s[i]
+			j := i + 1
+			for {
+				if j >= len(s) {
+					return false
+				}
+				if s[j] == q {
+					if j+1 < len(s) && s[j+1] == q {
+						j += 2
+						continue
+					}
+					break
+				}
+				j++
+			}
+			if seenSemi {
+				return true
+			}
+			i = j + 1
+		case strings.HasPrefix(s[i:], "--"):
+			j := strings.IndexByte(s[i:], '\n')
+			if j < 0 {
+				return false
+			}
+			i += j + 1
+		case strings.HasPrefix(s[i:], "/*"):
+			j := strings.Index(s[i+2:], "*/")
+			if j < 0 {
+				return false
+			}
+			i += 2 + j + 2
+		case s[i] == ';':
+			seenSemi = true
+			i++
+		case s[i] == ' ' || s[i] == '\n':
+			i++
+		default:
+			if seenSemi {
+				return true
+			}
+			i++
+		}
+	}
+	return false
+}
+
+func TestVerifBoundedMultiStatementSeen(t *testing.T) {
+	maxTok := 5
+	if os.Getenv("VERIF_TIER") == "thorough" {
+		maxTok = 6
+	}
+	toks := []string{`"`, `'`, "--", "/*", "*/", "\n", " ", "x", ";"}
+	n, live := 0, 0
+	var rec func(s string, depth int)
+	rec = func(s string, depth int) {
+		if s != "" {
+			n++
+			if verifLiveSecondStatement(s) {
+				live++
+				if err := ValidateSQLRequest("SELECT 1 " + s); err == nil {
+					t.Fatalf("%q: a second statement is live SQL for DuckDB's lexer, but ValidateSQLRequest accepts the request", "SELECT 1 "+s)
+				}
+			}
+		}
+		if depth == maxTok {
+			return
+		}
+		for _, tk := range toks {
+			rec(s+tk, depth+1)
+		}
+	}
+	rec("", 0)
+	t.Logf("%d texts, %d with a live second statement", n, live)
+}
